@@ -35,7 +35,8 @@ SizeVecs(P) ==
       [] P = 5 -> {<<C("1"), C("2"), Lin("1/2", "1"), C("3"), Exp("2", "1")>>, <<C("2"), C("1"), C("1/2"), C("3"), C("1")>>}
 Migs(P) ==
     CASE P = 1 -> {Zero(1)}
-      [] P = 2 -> {Zero(2), Mig(2, {<<1, 2, "1/2">>})} \cup (IF Rich THEN {Mig(2, {<<1, 2, "1">>, <<2, 1, "1">>})} ELSE {})
+      [] P = 2 -> {Mig(2, {<<1, 2, "1/2">>})} \cup (IF Rich \/ Gen \/ MaxBlocks >= 4 THEN {Zero(2)} ELSE {})
+                  \cup (IF Rich \/ Gen THEN {Mig(2, {<<1, 2, "1">>, <<2, 1, "1">>})} ELSE {})
       [] P = 3 -> {Mig(3, {<<1, 3, "1/2">>, <<3, 2, "1">>})} \cup (IF Rich THEN {Zero(3), Mig(3, {<<1, 2, "1">>, <<2, 1, "1">>})} ELSE {})
       [] P = 4 -> {Zero(4), Mig(4, {<<1, 4, "1/2">>, <<2, 1, "1">>, <<4, 3, "1/4">>})}
       [] P = 5 -> {Zero(5), Mig(5, {<<1, 5, "1/2">>, <<5, 1, "1/2">>, <<3, 2, "1">>, <<4, 5, "1/4">>})}
@@ -76,7 +77,7 @@ Emit(p) == IF Gen THEN PrintT(<<"PROG", p>>) ELSE TRUE
 Next == \/ /\ blocks >= 0 /\ blocks < MaxBlocks
            /\ \E b \in Blocks : prog' = prog \o b /\ Emit(prog')
            /\ blocks' = blocks + 1
-        \/ /\ blocks >= 0
+        \/ /\ blocks >= 0 /\ (Rich \/ Gen \/ blocks >= MaxBlocks - 1)       \* (tiny alphabet: early endings only near the depth bound)
            /\ \E b \in Tails : prog' = prog \o b /\ Emit(prog')
            /\ blocks' = -1          \* finished
 Spec == Init /\ [][Next]_vars
@@ -99,7 +100,9 @@ L_ExportUnits   == /\ ChangeUnits(G, "25") = Export(prog, Nref, "25")
 L_Scale         == \A c \in (IF Rich THEN {"3", "1/2"} ELSE {"3"}) : /\ Imp(ScaleGraph(G, c), Ids, RMul(Nref, c)) = Imp(G, Ids, Nref)
                                            /\ ImportNow(ScaleGraph(G, c), Ids) = ImportNow(G, Ids)
 L_Units         == Imp(ChangeUnits(G, "25"), Ids, Nref) = Imp(G, Ids, Nref)
-L_Permute       == \A pi \in Perms(Len(Ids)) : Imp(G, PermuteSamples(Ids, pi), Nref) = PermuteLastReorder(Imp(G, Ids, Nref), pi)
+\* (tiny alphabet: a rotation and the reversal generate every permutation; the rich configuration tries them all)
+SomePerms(n)    == IF Rich THEN Perms(n) ELSE {[j \in 1..n |-> (j % n) + 1], [j \in 1..n |-> n + 1 - j]}
+L_Permute       == \A pi \in SomePerms(Len(Ids)) : Imp(G, PermuteSamples(Ids, pi), Nref) = PermuteLastReorder(Imp(G, Ids, Nref), pi)
 
 \* size descriptor of the first / second part of an integration cut at half its duration (powers from PowHalf)
 MidSize(s) == IF s.fn = "constant" \/ s.s0 = s.s1 THEN s.s0
